@@ -175,6 +175,48 @@ pub fn run(ctx: &Ctx) -> i32 {
         res
     });
     sum.merge(cs);
+    // stacks with more layers than the cel chunk's 16-bit layer field can name
+    let ws = run_stage(ctx, "layers-beyond-16-bits", ctx.tier.pick(4u64, 16u64), |i| {
+        let mut rng = Rng::derive(ctx.seed, "C19-wide", i);
+        let (sp, extra) = crate::checks::c02::wide_stack(&mut rng);
+        let mut res = CaseResult::ok(gen::features(&sp) ^ extra as u64, 0, "layers-beyond-16-bits");
+        let spec = compile_with(&sp, &mut rng, &Variation::none(), &crate::program::PaletteProgram::Auto);
+        let (bytes, _) = encode(&spec);
+        match load(&bytes) {
+            Err(e) => res.violations.push(Violation::new(format!("load-failed|routes|{}", err_sig(&e)), format!("well-formed sprite with {} layers failed to load: {}", sp.layers.len(), e)).with_input(&bytes)),
+            Ok(ase) => {
+                res.count("cel_slots", (ase.num_frames() * ase.num_layers()) as u64);
+                match routes_agree(&ase, false) {
+                    Ok(k) => {
+                        res.leaves += k;
+                        res.count("route_comparisons", k);
+                    }
+                    Err(v) => res.violations.push(v.with_input(&bytes)),
+                }
+                for f in 0..ase.num_frames() {
+                    for l in 0..ase.num_layers() {
+                        let want_empty = l > 65_535 || !sp.cels.contains_key(&(f as u16, l as u16));
+                        for (route, c) in [("cel(f,l)", ase.cel(f, l)), ("frame(f).layer(l)", ase.frame(f).layer(l)), ("layer(l).frame(f)", ase.layer(l).frame(f))] {
+                            if c.is_empty() != want_empty {
+                                res.violations.push(Violation::new("route-vs-model|is-empty", format!("{} at frame {} layer {} of {}: is_empty() = {} but the file {} a cel there", route, f, l, ase.num_layers(), !want_empty, if want_empty { "does not store" } else { "stores" })).with_input(&bytes));
+                                return res;
+                            }
+                        }
+                        res.leaves += 3;
+                    }
+                    // frame image against the reference renderer (the visible layers sit at both ends of the stack)
+                    let got = Img::from_rgba(&ase.frame(f).image(), true);
+                    let want = crate::refrender::render_frame(&sp, f as u16);
+                    if let Some(d) = diff(&V::Img(got), &V::Img(want)) {
+                        res.violations.push(Violation::new("wide-stack-frame-image", format!("frame {} of a {}-layer stack: {}", f, ase.num_layers(), d)).with_input(&bytes));
+                    }
+                    res.leaves += 1;
+                }
+            }
+        }
+        res
+    });
+    sum.merge(ws);
     finish(
         ctx,
         sum,
